@@ -1,6 +1,7 @@
 """C02 — acknowledged data survives any later crash (flush / clean close)."""
 import random
 
+import os
 import vcommon as v
 import crashengine as ce
 
@@ -78,6 +79,13 @@ def run(tier, seed):
 
 
 def replay(path):
+    if os.path.basename(path).startswith("ackflush_"):
+        import concengine as cc
+        r = cc.validate(v.run_dir("c02_replay"), path, ["FlushAckComplete"])
+        if r.violation:
+            print("VIOLATION property=%s replay=%s" % (PROP, path))
+            return 1
+        return 0
     import seqengine as _sq
     if _sq.is_story(path):
         return _sq.replay_story(PROP, path)
